@@ -164,6 +164,11 @@ func (schemaStream) Generate(rng *rand.Rand, tier string, emit func(Case)) {
 	// typed Specs: random (mostly library-valid) with numeric extremes
 	for i := 0; i < nTyped; i++ {
 		s := genTypedSpec(rng)
+		if i%5 == 2 && len(s.Devices) > 0 {
+			// characters encoding/json writes as they are and YAML wants escaped (DEL, C1 controls, U+FFFE): the library's
+			// JSON text of a valid Spec is valid for the schema through the byte entry point too
+			s.Devices[0].ContainerEdits.Env = append(s.Devices[0].ContainerEdits.Env, "CTRL=a\x7fb", "C1=\u0085\u009f", "NONCHAR=\ufffe")
+		}
 		emit(Case{"op": "typed", "spec": specToProto(s)})
 	}
 	// a library-valid Spec whose files are larger than a megabyte (every annotation map within its own limit)
@@ -472,6 +477,20 @@ func (schemaStream) Execute(c Case) {
 			}
 			obs["fileJson"] = verdictOf(func() error { return b.ValidateFile(filepath.Join(dir, "out.json")) })
 			obs["fileYaml"] = verdictOf(func() error { return b.ValidateFile(filepath.Join(dir, "out.yaml")) })
+			// the same two texts through the byte entry point
+			for _, fn := range []string{"out.json", "out.yaml"} {
+				if text, err := os.ReadFile(filepath.Join(dir, fn)); err == nil {
+					want := obs["fileJson"]
+					if fn == "out.yaml" {
+						want = obs["fileYaml"]
+					}
+					if got := verdictOf(func() error { return b.ValidateData(text) }); got != want {
+						if a, _ := obs["aux"].([]any); true {
+							obs["aux"] = append(a, fmt.Sprintf("ValidateData on the text of %s gives %s, ValidateFile %v", fn, got, want))
+						}
+					}
+				}
+			}
 			// installing, using and removing a validator, under a deadline (a leaked lock must not hang the stream)
 			doneV := make(chan struct{})
 			go func() {
